@@ -39,7 +39,8 @@ THEOREMS = [
     'Px.Chain.C09_before_chain_drop', 'Px.Chain.C09_before_chain_reject', 'Px.Chain.C09_before_chain_pass',
     'Px.Chain.C09_client_request_chain_first', 'Px.Chain.C09_client_request_chain_later',
     'Px.Chain.C09_upstream_chunk_chain', 'Px.Chain.C09_reject_response',
-    'Px.Chain.C09_lifecycle', 'Px.Chain.C09_lifecycle_counts', 'Px.Chain.C09_lifecycle_not_dispatched',
+    'Px.Chain.C09_lifecycle', 'Px.Chain.C09_lifecycle_counts', 'Px.Chain.C09_lifecycle_once',
+    'Px.Chain.C09_lifecycle_not_dispatched',
     'Px.Chain.C09_load_order', 'Px.Chain.C09_load_order_table',
 ]
 RULE = ('plugin programs (1..4 generated recording subclasses, every hook independently pass/modify/None/raise) '
@@ -612,10 +613,31 @@ def apply_mod(label, hook, dig):
     return '.'.join(tags)
 
 
-def check_chain(case, order, toks, hook, auth_ok=True):
-    """order / data flow / short circuit of one chain; returns (failure | None, how it ended, plugin, action)"""
-    calls = [tok_parts(t) for t in toks if t.startswith('c') and not t.startswith('conn.') and tok_parts(t)[1] == hook]
+def spec_digest(req):
+    """what the first plugin of a chain must be handed for a request the client sent: method, path and
+    the header fields in arrival order, a repeated name keeping its first position and last value"""
+    hs = {}
+    for h in req['h']:
+        name, _, v = L(h).partition(b':')
+        name, v = name.strip(WS), v.strip(WS)
+        hs[name.lower()] = (name, v)
+    _, _, path, _ = req_fields(req)
+    return hx(b'\n'.join([L(req['m']) + b' ' + L(path)] + [k + b': ' + v for k, v in hs.values()]))
+
+
+def is_call(t):
+    return t.startswith('c') and not t.startswith('conn.')
+
+
+def check_chain(case, order, toks, hook, first=None, auth_ok=True):
+    """order / data flow / short circuit of the chain of `hook` seen in `toks`.
+    Returns (failure | None, how it ended, action that ended it, value left by the chain)."""
+    calls = [tok_parts(t) for t in toks if is_call(t) and tok_parts(t)[1] == hook]
+    if not calls:
+        return None, 'none', None, first
     idx = HOOKS.index(hook) + 1
+    if first is not None and calls[0][2] != first:
+        return hook + '-first-plugin-did-not-receive-the-original-value', None, None, None
     for n, (label, _, dig) in enumerate(calls):
         if n >= len(order) or label != order[n]:
             return hook + '-hooks-not-in-configured-order', None, None, None
@@ -625,98 +647,135 @@ def check_chain(case, order, toks, hook, auth_ok=True):
             act = prog_of(case, label)[idx]
         last = n == len(calls) - 1
         if act in ('P', 'M'):
+            out = dig if act == 'P' else apply_mod(label, hook, dig)
             if last:
                 if n != len(order) - 1:
                     return hook + '-chain-ended-early', None, None, None
-                return None, 'done', label, act
-            want = dig if act == 'P' else apply_mod(label, hook, dig)
-            if calls[n + 1][2] != want:
+                return None, 'done', act, out
+            if calls[n + 1][2] != out:
                 return hook + '-next-plugin-did-not-receive-predecessor-result', None, None, None
         else:
             if not last:
                 return hook + '-chain-continued-after-none-or-raise', None, None, None
-            return None, ('dropped' if act == 'D' else 'raised'), label, act
-    return None, ('done' if not order else 'none'), None, None
+            return None, ('dropped' if act == 'D' else 'raised'), act, dig
+    return None, 'none', None, first
 
 
-def oracle(case):
-    if not case['evs'] or case['evs'][0][0] != 'F':
-        dispatched = False
-    else:
-        dispatched = True
-    order, groups, sd = simulate(case, drain=True)
-    want_order = expected_order(case)
-    if order != want_order:
+def group_events(case):
+    """event (and, for 'C', whether it is the last segment) behind every group of simulate()"""
+    out = []
+    for ev in case['evs']:
+        if ev[0] == 'C':
+            n = len(segments(req_bytes(ev[1]), ev[2]))
+            out += [(ev, k == n - 1, seg) for k, seg in enumerate(segments(req_bytes(ev[1]), ev[2]))]
+        else:
+            out.append((ev, True, None))
+    return out
+
+
+def reject_bytes(act):
+    if act == 'AUTH':
+        from proxy.http.responses import PROXY_AUTH_FAILED_RESPONSE_PKT
+        return bytes(PROXY_AUTH_FAILED_RESPONSE_PKT)
+    return spec_response(act)
+
+
+def judge(case, order, groups, sd):
+    """C09 on one observed run (groups of simulate(case, drain=True))"""
+    evs = case['evs']
+    dispatched = bool(evs) and evs[0][0] == 'F'
+    if order != expected_order(case):
         return 'plugins-not-loaded-in-configured-order'
-    life = [t for g in groups for t in g[0] if '.alog.' in t or '.upclose.' in t or t.startswith('dlog.')]
-    if life:
+    if any('.alog.' in t or '.upclose.' in t or t.startswith('dlog.') for g in groups for t in g[0]):
         return 'lifecycle-hook-fired-before-close'
     if not dispatched:
-        return 'lifecycle-hook-without-plugin' if sd else None
+        if sd or any(is_call(t) for g in groups for t in g[0]):
+            return 'plugin-hook-invoked-without-dispatched-request'
+        return None
     # lifecycle: access-log chain (None short-circuit), then on_upstream_connection_close for ALL, once each
-    f, how, _, _ = check_chain(case, order, sd, 'alog')
+    f, how, _, _ = check_chain(case, order, sd, 'alog', first='-')
     if f:
         return 'lifecycle-' + f
     if how == 'none' and order:
         return 'lifecycle-on_access_log-not-called'
-    ups = [tok_parts(t)[0] for t in sd if '.upclose.' in t]
-    if ups != order:
+    if [tok_parts(t)[0] for t in sd if '.upclose.' in t] != order:
         return 'lifecycle-on_upstream_connection_close-not-exactly-once-each-in-order'
-    dl = [t for t in sd if t.startswith('dlog.')]
-    if len(dl) != (1 if how in ('done', 'none') else 0):
+    if len([t for t in sd if t.startswith('dlog.')]) != (1 if how in ('done', 'none') else 0):
         return 'lifecycle-default-access-log-wrong'
+    lost = any(e[0] == 'CA' for e in evs)       # a vanished client may lose what was still queued
+    allcl = b''.join(g[2] for g in groups)
     # first request
-    ev = case['evs'][0]
+    ev = evs[0]
     toks, up, cl, td = groups[0]
-    auth_ok = cred_ok(case, ev[1])
-    f, how, who, act = check_chain(case, order, toks, 'before', auth_ok)
+    f, how, act, val = check_chain(case, order, toks, 'before', spec_digest(ev[1]), cred_ok(case, ev[1]))
     if f:
         return f
     conns = [t for t in toks if t.startswith('conn.')]
-    if how in ('dropped', 'raised') and conns:
+    if how in ('dropped', 'raised') and [t for g in groups for t in g[0] if t.startswith('conn.')]:
         return 'connect-after-before-chain-%s' % how
     if how == 'raised':
-        if up:
-            return 'request-bytes-forwarded-after-reject'
-        if any(tok_parts(t)[1] in ('creq', 'dns') for t in toks if t.startswith('c') and not t.startswith('conn.')):
+        if any(g[1] for g in groups):
+            return 'bytes-forwarded-after-reject'
+        if any(is_call(t) and tok_parts(t)[1] != 'before' for g in groups for t in g[0]):
             return 'later-hooks-ran-after-reject'
-        allcl = b''.join(g[2] for g in groups)
-        if act != 'AUTH' and not allcl.startswith(spec_response(act)):
+        want = reject_bytes(act)
+        if allcl != want and not (lost and want.startswith(allcl)):
             return 'reject-response-differs-from-the-plugins-choice'
         return None
-    # the before chain passed or dropped: handle_client_request chain follows (after the connect)
     if how == 'done' and order and len(conns) != 1:
         return 'no-single-connect-after-before-chain-passed'
-    if conns and toks.index(conns[0]) < max([i for i, t in enumerate(toks) if '.before.' in t] or [-1]):
+    if conns and toks.index(conns[0]) < max(i for i, t in enumerate(toks) if '.before.' in t or i == 0):
         return 'connect-before-the-before_upstream_connection-chain-finished'
     if conns and not ev[2]:
-        return None                      # connect failed: 502, nothing more to judge
-    f, how2, who2, act2 = check_chain(case, order, toks, 'creq')
+        return None                      # connect failed: 502, nothing more to judge here
+    f, how2, act2, _ = check_chain(case, order, toks, 'creq', val)
     if f:
         return f
+    if order and how2 == 'none':
+        return 'handle_client_request-chain-did-not-run'
     if how2 in ('dropped', 'raised') and up:
         return 'request-forwarded-after-handle_client_request-%s' % how2
     if how2 == 'raised':
-        allcl = b''.join(g[2] for g in groups)
-        if not allcl.startswith(spec_response(act2)):
+        want = reject_bytes(act2)
+        if not allcl.startswith(want) and not (lost and want.startswith(allcl)):
             return 'reject-response-differs-from-the-plugins-choice'
-    # later groups: every chain seen is in order with correct data flow and short circuit
-    dropped_followup = False
-    for g in groups[1:]:
-        for hook in ('creq', 'cdata', 'up'):
-            if hook == 'creq' and dropped_followup:
-                continue
-            f, h3, _, a3 = check_chain(case, order, g[0], hook)
-            if f and any(('.' + hook + '.') in t for t in g[0]):
-                return f
-            if hook == 'creq' and h3 in ('dropped', 'raised') and any('.creq.' in t for t in g[0]):
+    # later events
+    for (gev, last, seg), g in zip(group_events(case)[1:], groups[1:]):
+        k = gev[0]
+        if k == 'C':
+            if any('.cdata.' in t for t in g[0]):
+                f, h3, a3, _ = check_chain(case, order, g[0], 'cdata', hx(seg))
+                if f:
+                    return f
                 if g[1]:
+                    return 'bytes-forwarded-without-upstream'
+                if h3 == 'raised' and reject_bytes(a3) not in allcl and not lost:
+                    return 'reject-response-differs-from-the-plugins-choice'
+            if any('.creq.' in t for t in g[0]):
+                if not last:
+                    return 'handle_client_request-ran-on-incomplete-follow-up'
+                f, h3, a3, _ = check_chain(case, order, g[0], 'creq', spec_digest(gev[1]))
+                if f:
+                    return 'follow-up-' + f
+                if h3 in ('dropped', 'raised') and g[1]:
                     return 'follow-up-forwarded-after-handle_client_request-%s' % h3
-                if h3 == 'dropped':
-                    dropped_followup = True
-            if hook == 'up' and h3 == 'dropped' and any('.up.' in t for t in g[0]) and g[2] and False:
-                return 'chunk-relayed-after-handle_upstream_chunk-none'
+                if h3 == 'done' and not g[1]:
+                    return 'follow-up-not-forwarded-although-all-plugins-passed-it'
+                if h3 == 'raised' and reject_bytes(a3) not in allcl and not lost:
+                    return 'reject-response-differs-from-the-plugins-choice'
+        elif k == 'U':
+            if any('.up.' in t for t in g[0]):
+                f, _, _, _ = check_chain(case, order, g[0], 'up', gev[1] or '-')
+                if f:
+                    return f
+        if any(is_call(t) and tok_parts(t)[1] == 'before' for t in g[0]):
+            return 'before_upstream_connection-ran-again'
     return None
+
+
+def oracle(case):
+    order, groups, sd = simulate(case, drain=True)
+    return judge(case, order, groups, sd)
 
 
 # ---------------------------------------------------------------- generators
